@@ -55,10 +55,23 @@ fn my_tid() -> u32 {
     })
 }
 
+/// Contention mode: every call fails at once with this errno (0 = off) without taking the lock or logging; only the
+/// number of attempts and their byte total are counted. Used to make many threads hammer a sink's own bookkeeping.
+pub static FAST_FAIL_ERRNO: std::sync::atomic::AtomicI32 = std::sync::atomic::AtomicI32::new(0);
+pub static FAST_ATTEMPTS: std::sync::atomic::AtomicU64 = std::sync::atomic::AtomicU64::new(0);
+pub static FAST_BYTES: std::sync::atomic::AtomicU64 = std::sync::atomic::AtomicU64::new(0);
+
 /// # Safety
 /// Called by std with the arguments of sendto(2).
 #[no_mangle]
 pub unsafe extern "C" fn sendto(fd: i32, buf: *const u8, len: usize, flags: i32, addr: *const u8, alen: u32) -> isize {
+    let ff = FAST_FAIL_ERRNO.load(std::sync::atomic::Ordering::Relaxed);
+    if ff != 0 {
+        FAST_ATTEMPTS.fetch_add(1, std::sync::atomic::Ordering::Relaxed);
+        FAST_BYTES.fetch_add(len as u64, std::sync::atomic::Ordering::Relaxed);
+        *__errno_location() = ff;
+        return -1;
+    }
     let payload = if buf.is_null() { Vec::new() } else { std::slice::from_raw_parts(buf, len).to_vec() };
     let dest = if addr.is_null() { Vec::new() } else { std::slice::from_raw_parts(addr, alen as usize).to_vec() };
     let tid = my_tid();
